@@ -526,3 +526,88 @@ def replay_h_prof(detail):
 
 
 KINDS['h_prof'] = replay_h_prof
+
+
+def replay_h_valid(detail):
+    """C15 on the real stack: the same entry point, the same violated precondition (or the same valid
+    degenerate shape), real pandas dtypes, real tokenizers."""
+    repo.load()
+    import pandas as pd
+    from py_stringmatching import WhitespaceTokenizer, QgramTokenizer
+    from harness import h_valid
+    ssj = repo.mod('')
+    entry, invalid = detail['entry'], detail['invalid']
+
+    def frame(t, dts):
+        cols = t['columns']
+        data = {}
+        for j, col in enumerate(cols):
+            vals = [r[j] for r in t['rows']]
+            if col == 'attr':
+                dt = dts.get('attr', 'object')
+                if dt in ('int64', 'float64'):
+                    vals = [float(i) for i, _ in enumerate(vals)]
+                    data[col] = pd.Series(vals, dtype=dt if dt == 'float64' or all(v == v for v in vals) else 'float64')
+                elif dt == 'str':
+                    data[col] = pd.Series(vals, dtype='str')
+                else:
+                    data[col] = pd.Series(vals, dtype=object)
+            elif col == 'id':
+                data[col] = pd.Series(vals, dtype=object if any(v is None for v in vals) else 'int64')
+            else:
+                data[col] = pd.Series(vals, dtype=object)
+        return pd.DataFrame(data, columns=cols)
+    L, R = frame(detail['L'], detail['l_dtypes']), frame(detail['R'], detail['r_dtypes'])
+    if invalid == 'ltable-not-frame':
+        L = [tuple(r) for r in detail['L']['rows']]
+    if invalid == 'rtable-not-frame':
+        R = [tuple(r) for r in detail['R']['rows']]
+    ed = entry == 'edit_distance_join' or detail.get('measure') == 'EDIT_DISTANCE'
+    mode0 = detail['tok_return_set']
+    tok = QgramTokenizer(qval=2, return_set=mode0) if (ed and invalid != 'non-qgram-tokenizer') else WhitespaceTokenizer(return_set=mode0)
+    t = tok
+    if invalid == 'tokenizer-not-tokenizer':
+        t = 'ws'
+    a = dict(detail['args'])
+    a.update(threshold=detail['threshold'], comp_op=detail['comp_op'], measure=detail['measure'])
+    cand = None
+    if entry.startswith('filter_candset') or entry == 'apply_matcher':
+        lk = [r[detail['L']['columns'].index('id')] for r in detail['L']['rows'][:1]]
+        rk = [r[detail['R']['columns'].index('id')] for r in detail['R']['rows'][:2]]
+        crows = [(0, x, y) for x in lk for y in rk if x is not None and y is not None]
+        cand = pd.DataFrame(crows, columns=['_id', 'l_id', 'r_id'])
+        if invalid == 'candset-not-frame':
+            cand = crows
+    ck, crk = detail['cand_keys']
+    L0 = L.copy(deep=True) if hasattr(L, 'copy') and not isinstance(L, list) else None
+    lines = ['%s, violated precondition: %s, shape: %s, tokenizer.return_set=%r, threshold=%r op=%r measure=%r' % (
+        entry, invalid, detail['shape'], mode0, a['threshold'], a['comp_op'], a['measure']),
+        'left:\n%s' % (L.to_string() if L0 is not None else L), 'left dtypes: %r' % (detail['l_dtypes'],)]
+    exc, out = None, None
+    try:
+        out = h_valid.invoke(ssj, entry, L, R, cand, ck, crk, a, t)
+    except Exception as e:
+        exc = e
+    lines.append('-> %s' % (('raised %s: %s' % (type(exc).__name__, exc)) if exc else ('returned %s' % type(out).__name__)))
+    bad = False
+    mode_now = tok.get_return_set()
+    if invalid:
+        want = h_valid.KINDS[invalid]
+        if exc is None or not isinstance(exc, want):
+            lines.append('documented: %s' % want.__name__)
+            bad = True
+        if mode_now != mode0 and t is tok:
+            lines.append('tokenizer left in return_set=%r (was %r)' % (mode_now, mode0))
+            bad = True
+    else:
+        if exc is not None:
+            bad = True
+        elif not entry.startswith('ctor:') and not isinstance(out, pd.DataFrame):
+            bad = True
+        if mode_now != mode0:
+            lines.append('tokenizer left in return_set=%r (was %r)' % (mode_now, mode0))
+            bad = True
+    return bad, '\n'.join(lines)
+
+
+KINDS['h_valid'] = replay_h_valid
